@@ -64,8 +64,21 @@ func genC08A(t *rapid.T) c08Case {
 	var c c08Case
 	kinds := []string{"convertcoin", "convertcoin", "converterc20", "converterc20", "convertdenom", "convertdenom", "registercoin", "registererc20", "toggle", "alias", "transfer"}
 	for i := 0; i < n; i++ {
-		c.Ops = append(c.Ops, c08Op{Kind: rapid.SampledFrom(kinds).Draw(t, "kind"), U: rapid.IntRange(0, 3).Draw(t, "u"), V: rapid.IntRange(0, 3).Draw(t, "v"), Tok: rapid.IntRange(0, 5).Draw(t, "tok"),
+		c.Ops = append(c.Ops, c08Op{Kind: rapid.SampledFrom(kinds).Draw(t, "kind"), U: rapid.IntRange(0, 3).Draw(t, "u"), V: rapid.SampledFrom([]int{0, 1, 2, 3, 0, 1, 2, 3, 0, 1, 2, 3, 4, 5, 6}).Draw(t, "v"), Tok: rapid.IntRange(0, 5).Draw(t, "tok"),
 			Amt: rapid.Int64Range(1, 100000).Draw(t, "amt"), Chain: rapid.IntRange(0, 4).Draw(t, "chain"), Flag: rapid.Bool().Draw(t, "flag"), Idx: rapid.IntRange(0, 5).Draw(t, "idx")})
+		if op := &c.Ops[len(c.Ops)-1]; op.Kind == "convertdenom" && rapid.IntRange(0, 2).Draw(t, "toModule") == 0 {
+			// composite: the sender first turns base coins into one chain's bridge denomination (to itself), then converts that
+			// denomination back to the base denomination with a module account (or another user) as the receiver
+			k := rapid.IntRange(0, 2).Draw(t, "viaChain")
+			first := *op
+			first.V, first.Flag, first.Chain = first.U, false, k
+			op.V = rapid.SampledFrom([]int{4, 4, 5, 6, 0, 1}).Draw(t, "vmod")
+			op.Flag, op.Idx, op.Chain = true, k, 4
+			if op.Amt > 1 {
+				op.Amt = rapid.Int64Range(1, op.Amt).Draw(t, "backAmt")
+			}
+			c.Ops = append(c.Ops[:len(c.Ops)-1], first, *op)
+		}
 	}
 	return c
 }
@@ -235,6 +248,17 @@ func runC08A(c c08Case, rec *ev.Recorder) *Failure {
 	ctx, _ := f.Ctx.CacheContext()
 	e := newC08Env(f, ctx)
 	gov := sim.GovAddr.String()
+	// legacy holdings: coins of the module-owned pair's per-chain denominations in user accounts (as left by deposits made before the
+	// denominations were merged into one base denomination - the state MsgConvertDenom exists for)
+	for _, tk := range f.Tokens {
+		if tk.Kind == sim.KindModule {
+			for i, chn := range baseChains {
+				if d := tk.Bridge[chn]; d != "" {
+					f.Mint(ctx, f.Users[i%2].Acc(), sdk.NewCoin(d, sdkmath.NewInt(60_000)))
+				}
+			}
+		}
+	}
 	if fl := e.invariants(ctx, "base state"); fl != nil {
 		return fl
 	}
@@ -245,21 +269,29 @@ func runC08A(c c08Case, rec *ev.Recorder) *Failure {
 		toks := e.tokens()
 		t := toks[op.Tok%len(toks)]
 		u, v := f.Users[op.U%4], f.Users[op.V%4]
+		// the receiver of a conversion is any address the sender writes: users, and (V >= 4) module accounts - the erc20 module's
+		// own escrow account, a bridge module, the IBC transfer module
+		vHex := v.Hex()
+		if op.V >= 4 && strings.HasPrefix(op.Kind, "convert") {
+			vHex = c08ModuleAddr([]string{erc20types.ModuleName, "eth", "transfer"}[(op.V-4)%3])
+			labels["receiver-is-module-account"] = true
+		}
+		vAcc := sdk.AccAddress(vHex.Bytes())
 		amt := sdkmath.NewInt(op.Amt)
 		type snap struct{ u, v *big.Int }
 		pre := map[string]snap{}
 		for _, tk := range toks {
-			pre[tk.Name] = snap{e.value(ctx, u.Hex(), tk), e.value(ctx, v.Hex(), tk)}
+			pre[tk.Name] = snap{e.value(ctx, u.Hex(), tk), e.value(ctx, vHex, tk)}
 		}
 		var ok bool
 		moved := false
 		switch op.Kind {
 		case "convertcoin":
 			denom := t.Base
-			ok = f.RunMsg(ctx, &erc20types.MsgConvertCoin{Coin: sdk.NewCoin(denom, amt), Receiver: v.Hex().String(), Sender: u.Acc().String()}).OK()
+			ok = f.RunMsg(ctx, &erc20types.MsgConvertCoin{Coin: sdk.NewCoin(denom, amt), Receiver: vHex.String(), Sender: u.Acc().String()}).OK()
 			moved = ok
 		case "converterc20":
-			ok = f.RunMsg(ctx, &erc20types.MsgConvertERC20{ContractAddress: t.ERC20.String(), Amount: amt, Receiver: v.Acc().String(), Sender: u.Hex().String()}).OK()
+			ok = f.RunMsg(ctx, &erc20types.MsgConvertERC20{ContractAddress: t.ERC20.String(), Amount: amt, Receiver: vAcc.String(), Sender: u.Hex().String()}).OK()
 			moved = ok
 		case "convertdenom":
 			target := append(append([]string{}, baseChains...), "erc20", "")[op.Chain%5]
@@ -270,7 +302,7 @@ func runC08A(c c08Case, rec *ev.Recorder) *Failure {
 			if denom == "" {
 				denom = t.Base
 			}
-			ok = f.RunMsg(ctx, &erc20types.MsgConvertDenom{Sender: u.Acc().String(), Receiver: v.Acc().String(), Coin: sdk.NewCoin(denom, amt), Target: target}).OK()
+			ok = f.RunMsg(ctx, &erc20types.MsgConvertDenom{Sender: u.Acc().String(), Receiver: vAcc.String(), Coin: sdk.NewCoin(denom, amt), Target: target}).OK()
 			moved = ok
 			if ok {
 				labels["convert-denom"] = true
@@ -354,6 +386,9 @@ func runC08A(c c08Case, rec *ev.Recorder) *Failure {
 				labels["alias-update"] = true
 			}
 		}
+		if moved && vHex != v.Hex() {
+			labels["conversion-to-module-account-accepted"] = true
+		}
 		if moved {
 			kinds[t.Kind] = true
 			labels["conversion"] = true
@@ -364,9 +399,9 @@ func runC08A(c c08Case, rec *ev.Recorder) *Failure {
 					continue
 				}
 				du := new(big.Int).Sub(e.value(ctx, u.Hex(), tk), p.u)
-				dv := new(big.Int).Sub(e.value(ctx, v.Hex(), tk), p.v)
+				dv := new(big.Int).Sub(e.value(ctx, vHex, tk), p.v)
 				wantU, wantV := big.NewInt(0), big.NewInt(0)
-				if tk == t && u.Hex() != v.Hex() {
+				if tk == t && u.Hex() != vHex {
 					wantU, wantV = new(big.Int).Neg(amt.BigInt()), amt.BigInt()
 				}
 				if du.Cmp(wantU) != 0 || dv.Cmp(wantV) != 0 {
